@@ -172,3 +172,230 @@ Qed.
 Lemma merge_pairs_gen how L R lon ron :
   merge_pairs how L R lon ron = gen_pairs (key_of (cols L) lon) (key_of (cols R) ron) how (rows L) (rows R).
 Proof. destruct how; reflexivity. Qed.
+
+(* ------------------------------------------------------------------ cells of a merged row *)
+Lemma get_map_inj (ren : string -> string) (g : string -> val) l c :
+  NoDup (map ren l) -> In c l -> get (map ren l) (map g l) (ren c) = g c.
+Proof.
+  induction l as [|x l IH]; intros N I; [contradiction|]. cbn [map] in *. inversion N as [|? ? Nx Nl]; subst.
+  destruct I as [->|I].
+  - apply get_cons_same.
+  - rewrite get_cons_other; [apply IH; assumption|]. intros E. apply Nx. rewrite <- E. apply in_map. exact I.
+Qed.
+
+Lemma sapp_inj_l a b s : sapp a s = sapp b s -> a = b.
+Proof.
+  unfold sapp. revert b. induction a as [|x a IH]; intros b H.
+  - destruct b as [|y b]; [reflexivity|]. exfalso. simpl in H. apply (f_equal String.length) in H. simpl in H.
+    change (String.length s = S (String.length (String.append b s))) in H.
+    pose proof (sapp_length b s) as L. unfold sapp in L. rewrite L in H. lia.
+  - destruct b as [|y b].
+    + exfalso. simpl in H. apply (f_equal String.length) in H. simpl in H. pose proof (sapp_length a s) as L. unfold sapp in L. rewrite L in H. lia.
+    + simpl in H. inversion H; subst. f_equal. apply IH. assumption.
+Qed.
+
+Lemma NoDup_app_r {X} (l m : list X) : NoDup (l ++ m) -> NoDup m.
+Proof. induction l as [|x l IH]; simpl; intros N; [exact N|]. inversion N; subst. apply IH. assumption. Qed.
+Lemma NoDup_app_disj {X} (l m : list X) x : NoDup (l ++ m) -> In x l -> ~ In x m.
+Proof.
+  induction l as [|y l IH]; simpl; intros N I J; [contradiction|]. inversion N as [|? ? Ny Nl]; subst. destruct I as [->|I].
+  - apply Ny. apply in_app_iff. right. exact J.
+  - apply (IH Nl I J).
+Qed.
+
+Section Merge.
+  Variables (L R : table) (lon ron : list string) (sfx : string).
+  Hypothesis WL : width_ok L.
+  Hypothesis WR : width_ok R.
+  Let kept := merge_right_cols lon ron (cols R).
+  Let ren := fun c => if mem c (cols L) then sapp c sfx else c.
+  Let out := merge_cols (cols L) (cols R) lon ron sfx.
+  Hypothesis Nout : NoDup out.
+
+  Definition fL (p : pair (list val) (list val)) (c : string) : val :=
+    match fst p with
+    | Some ra => get (cols L) ra c
+    | None => match snd p with
+              | Some rb => if same_named_key lon ron c then get (cols R) rb c else VNull
+              | None => VNull
+              end
+    end.
+  Definition fR (p : pair (list val) (list val)) (c : string) : val :=
+    match snd p with Some rb => get (cols R) rb c | None => VNull end.
+  Definition g0 (p : pair (list val) (list val)) (x : string) : val := get out (merge_row (cols L) (cols R) lon ron p) x.
+
+  Lemma out_eq : out = cols L ++ map ren kept.
+  Proof. reflexivity. Qed.
+  Lemma merge_row_eq p : merge_row (cols L) (cols R) lon ron p = map (fL p) (cols L) ++ map (fR p) kept.
+  Proof. reflexivity. Qed.
+
+  Lemma g0_left p x : In x (cols L) -> g0 p x = fL p x.
+  Proof.
+    intros I. unfold g0. rewrite out_eq, merge_row_eq. rewrite get_app_l; [|apply map_length|exact I].
+    rewrite get_map_cols. apply mem_In in I. rewrite I. reflexivity.
+  Qed.
+  Lemma ren_not_left c : In c kept -> ~ In (ren c) (cols L).
+  Proof.
+    intros I J. rewrite out_eq in Nout. apply (NoDup_app_disj _ _ _ Nout J). apply in_map, I.
+  Qed.
+  Lemma g0_right p c : In c kept -> g0 p (ren c) = fR p c.
+  Proof.
+    intros I. unfold g0. rewrite out_eq, merge_row_eq. rewrite get_app_r; [|apply map_length|apply ren_not_left, I].
+    apply get_map_inj; [|exact I]. rewrite out_eq in Nout. apply NoDup_app_r in Nout. exact Nout.
+  Qed.
+  Lemma merge_row_length p : List.length (merge_row (cols L) (cols R) lon ron p) = List.length out.
+  Proof. rewrite out_eq, merge_row_eq, !app_length, !map_length. reflexivity. Qed.
+End Merge.
+
+(* ------------------------------------------------------------------ one round of the coalescing loop *)
+Lemma add_end_mem (cs : list string) c : In c cs -> add_end cs c = cs.
+Proof. intros I. unfold add_end. apply mem_In in I. rewrite I. reflexivity. Qed.
+
+Lemma coalesce_step {X} F (PP : list X) (val : X -> string -> val) c c2 F' :
+  width_ok F -> Forall2 (fun rF p => forall x, In x (cols F) -> get (cols F) rF x = val p x) (rows F) PP ->
+  (is_null <- pd_isnull c F ;; r <- pd_loc_set_from is_null c c2 F ;; pd_del c2 r) = Some F' ->
+  In c (cols F) /\ In c2 (cols F) /\ width_ok F' /\ cols F' = remove_elem c2 (cols F) /\
+  Forall2 (fun rF p => forall x, In x (cols F') -> get (cols F') rF x
+                                  = if eq_dec x c then (if is_null (val p c) then val p c2 else val p c) else val p x) (rows F') PP.
+Proof.
+  intros W F2 H. unfold pd_isnull, pd_col in H. destruct (mem c (cols F)) eqn:Mc; cbn [option_map obind] in H; [|discriminate].
+  unfold pd_loc_set_from in H. rewrite Mc in H. destruct (mem c2 (cols F)) eqn:Mc2; cbn [andb] in H; [|discriminate].
+  unfold getcol, nrows in H. rewrite !map_length, Nat.eqb_refl in H. cbn [obind] in H.
+  unfold pd_del in H. cbn [cols] in H. rewrite Mc2 in H. inversion H; subst F'. clear H.
+  apply mem_In in Mc. apply mem_In in Mc2. split; [exact Mc|]. split; [exact Mc2|]. split; [apply width_select_cols|]. split; [reflexivity|].
+  cbn [cols rows sem_select_cols]. rewrite (map_map (fun r => get (cols F) r c) is_null), combine_self_map, !map_map. cbn [fst snd].
+  rewrite <- (map_id PP). unfold width_ok in W. revert W F2. generalize (rows F) as rs. intros rs W F2.
+  induction F2 as [|rF p rs PP Hr F2 IH]; cbn [map]; constructor; [|apply IH; inversion W; assumption].
+  intros x Ix. rewrite get_map_cols. apply mem_In in Ix as Mx. rewrite Mx. apply In_remove_elem in Ix. destruct Ix as [Ix Nx].
+  assert (List.length rF = List.length (cols F)) as Lr by (inversion W; assumption).
+  destruct (is_null (get (cols F) rF c)) eqn:En.
+  - rewrite <- (add_end_mem (cols F) c Mc) at 1. rewrite (set_cell_get _ _ _ _ _ Lr).
+    rewrite <- (Hr c Mc), En. destruct (eq_dec x c); [apply Hr, Mc2|apply Hr, Ix].
+  - rewrite <- (Hr c Mc), En. destruct (eq_dec x c) as [->|n]; [reflexivity|apply Hr, Ix].
+Qed.
+
+(* ------------------------------------------------------------------ the whole loop *)
+Section Loop.
+  Context {X : Type}.
+  Variables (PP : list X) (g : X -> string -> val) (on_a names : list string) (sfx : string) (cols0 : list string).
+
+  Definition coal (done : list string) (x : string) : bool := mem x done && negb (mem x on_a).
+  Definition valD (done : list string) (p : X) (x : string) : val :=
+    if coal done x then (if is_null (g p x) then g p (sapp x sfx) else g p x) else g p x.
+  Definition dropped (done : list string) : list string := map (fun c => sapp c sfx) (filter (fun c => negb (mem c on_a)) done).
+  Definition JInv (F : table) (done : list string) : Prop :=
+    width_ok F /\ cols F = filter (fun x => negb (mem x (dropped done))) cols0 /\
+    Forall2 (fun rF p => forall x, In x (cols F) -> get (cols F) rF x = valD done p x) (rows F) PP.
+
+  Definition jstep (acc : option table) (c : string) : option table :=
+    r <- acc ;;
+    if mem c on_a then Some r
+    else is_null <- pd_isnull c r ;; r <- pd_loc_set_from is_null c (sapp c sfx) r ;; pd_del (sapp c sfx) r.
+
+  Lemma jstep_none cs : fold_left jstep cs None = None.
+  Proof. induction cs as [|c cs IH]; simpl; [reflexivity|exact IH]. Qed.
+
+  Lemma coalesce_fold cs : forall done F F',
+    (forall c, In c (done ++ cs) -> In c names /\ ~ In (sapp c sfx) names) -> NoDup (done ++ cs) ->
+    JInv F done -> fold_left jstep cs (Some F) = Some F' -> JInv F' (rev cs ++ done).
+  Proof.
+    induction cs as [|c cs IH]; intros done F F' Hn Nd Inv H.
+    - simpl in H. inversion H; subst. exact Inv.
+    - cbn [fold_left] in H. cbn [rev]. rewrite <- app_assoc. cbn [app].
+      assert (~ In c done) as Ncd. { intros I. apply NoDup_remove_2 in Nd. apply Nd. apply in_app_iff. left. exact I. }
+      assert (forall c0, In c0 ((c :: done) ++ cs) -> In c0 names /\ ~ In (sapp c0 sfx) names) as Hn'.
+      { intros c0 I. apply Hn. cbn [app] in I. destruct I as [<-|I]; [apply in_app_iff; right; left; reflexivity|].
+        apply in_app_iff in I. apply in_app_iff. destruct I as [I|I]; [left; exact I|right; right; exact I]. }
+      assert (NoDup ((c :: done) ++ cs)) as Nd'.
+      { cbn [app]. constructor; [apply NoDup_remove_2 in Nd; exact Nd|apply NoDup_remove_1 in Nd; exact Nd]. }
+      assert (JInv F (c :: done) \/ True) as _ by (right; exact I).
+      unfold jstep at 2 in H. cbn [obind] in H. destruct (mem c on_a) eqn:Mo.
+      + (* a key column: nothing happens *)
+        apply (IH (c :: done) F F' Hn' Nd'); [|exact H]. destruct Inv as [W [Cf Fr]]. split; [exact W|]. split.
+        * rewrite Cf. unfold dropped. cbn [filter]. rewrite Mo. reflexivity.
+        * eapply Forall2_weaken; [|exact Fr]. intros rF p Hr x Ix. rewrite (Hr x Ix). unfold valD, coal. cbn [mem].
+          destruct (eq_dec x c) as [->|n]; [rewrite Mo, !andb_false_r; reflexivity|reflexivity].
+      + destruct (is_null0 <- pd_isnull c F ;; r <- pd_loc_set_from is_null0 c (sapp c sfx) F ;; pd_del (sapp c sfx) r) as [F1|] eqn:E1;
+          [|rewrite jstep_none in H; discriminate].
+        destruct Inv as [W [Cf Fr]]. destruct (coalesce_step F PP (valD done) c (sapp c sfx) F1 W Fr E1) as [Ic [Ic2 [W1 [C1 F1r]]]].
+        apply (IH (c :: done) F1 F' Hn' Nd'); [|exact H]. split; [exact W1|]. split.
+        * rewrite C1, Cf. unfold remove_elem. rewrite filter_filter. apply filter_ext. intros x. unfold dropped. cbn [filter]. rewrite Mo. cbn [negb map mem].
+          unfold eqb. destruct (eq_dec (sapp c sfx) x), (eq_dec x (sapp c sfx)); try congruence; cbn [negb]; [rewrite andb_false_r|rewrite andb_true_r]; reflexivity.
+        * assert (In c names /\ ~ In (sapp c sfx) names) as [Icn Nc2] by (apply Hn; apply in_app_iff; right; left; reflexivity).
+          assert (~ In (sapp c sfx) done) as N2d. { intros I. apply Nc2. apply (Hn (sapp c sfx)). apply in_app_iff. left. exact I. }
+          eapply Forall2_weaken; [|exact F1r]. intros rF p Hr x Ix. rewrite (Hr x Ix). unfold valD, coal. cbn [mem].
+          destruct (eq_dec x c) as [->|n].
+          -- replace (mem c done) with false by (symmetry; apply mem_false, Ncd). rewrite Mo. cbn [andb negb].
+             replace (mem (sapp c sfx) done) with false by (symmetry; apply mem_false, N2d). cbn [andb]. reflexivity.
+          -- reflexivity.
+  Qed.
+End Loop.
+
+(* ------------------------------------------------------------------ pairs of a merge are matches where both sides are present *)
+Lemma sem_pairs_matched {A B} (lk : A -> list val) (rk : B -> list val) how la lb a b :
+  In (Some a, Some b) (sem_pairs lk rk how la lb) -> mt lk rk a b = true.
+Proof.
+  unfold sem_pairs. rewrite !in_app_iff. intros [I|[I|I]].
+  - unfold pairs_inner in I. apply in_flat_map in I. destruct I as [a' [_ I]]. apply in_map_iff in I. destruct I as [b' [E I]].
+    inversion E; subst. apply filter_In in I. tauto.
+  - exfalso. destruct how; try contradiction; unfold pairs_left_only in I; apply in_flat_map in I; destruct I as [a' [_ I]];
+      destruct (filter _ lb); try contradiction; destruct I as [E|[]]; discriminate.
+  - exfalso. destruct how; try contradiction; unfold pairs_right_only in I; apply in_flat_map in I; destruct I as [b' [_ I]];
+      destruct (filter _ la); try contradiction; destruct I as [E|[]]; discriminate.
+Qed.
+Lemma sem_pairs_from {A B} (lk : A -> list val) (rk : B -> list val) how la lb p :
+  In p (sem_pairs lk rk how la lb) ->
+  (forall a, fst p = Some a -> In a la) /\ (forall b, snd p = Some b -> In b lb) /\ (fst p <> None \/ snd p <> None).
+Proof.
+  unfold sem_pairs. rewrite !in_app_iff. intros [I|[I|I]].
+  - unfold pairs_inner in I. apply in_flat_map in I. destruct I as [a' [Ia I]]. apply in_map_iff in I. destruct I as [b' [<- I]].
+    apply filter_In in I. cbn [fst snd]. split; [intros a E; inversion E; subst; exact Ia|]. split; [intros b E; inversion E; subst; tauto|left; discriminate].
+  - destruct how; try contradiction; unfold pairs_left_only in I; apply in_flat_map in I; destruct I as [a' [Ia I]];
+      destruct (filter _ lb); try contradiction; destruct I as [<-|[]]; cbn [fst snd];
+      (split; [intros a E; inversion E; subst; exact Ia|]; split; [intros b E; discriminate|left; discriminate]).
+  - destruct how; try contradiction; unfold pairs_right_only in I; apply in_flat_map in I; destruct I as [b' [Ib I]];
+      destruct (filter _ la); try contradiction; destruct I as [<-|[]]; cbn [fst snd];
+      (split; [intros a E; discriminate|]; split; [intros b E; inversion E; subst; exact Ib|right; discriminate]).
+Qed.
+
+(* equal keys: a null on one side means a null on the other *)
+Lemma keys_eqv_null_at (ka kb : list val) i : keys_eqv ka kb = true -> is_null (nth i ka VNull) = true -> nth i kb VNull = VNull.
+Proof.
+  revert kb i. induction ka as [|x ka IH]; intros [|y kb] [|i] E N; simpl in *; try discriminate; try reflexivity.
+  - apply andb_true_iff in E. destruct E as [E _]. destruct x; try discriminate. destruct y; try discriminate. reflexivity.
+  - apply andb_true_iff in E. destruct E as [_ E]. apply (IH kb i E N).
+Qed.
+
+Lemma sem_pairs_ext_in {A B} (lk lk' : A -> list val) (rk rk' : B -> list val) how la lb :
+  (forall a b, In a la -> In b lb -> mt lk rk a b = mt lk' rk' a b) -> sem_pairs lk rk how la lb = sem_pairs lk' rk' how la lb.
+Proof.
+  intros E. unfold sem_pairs, pairs_inner, pairs_left_only, pairs_right_only.
+  assert (forall a, In a la -> filter (mt lk rk a) lb = filter (mt lk' rk' a) lb) as F1 by (intros a Ia; apply filter_ext_in; intros b Ib; apply E; assumption).
+  assert (forall b, In b lb -> filter (fun a => mt lk rk a b) la = filter (fun a => mt lk' rk' a b) la) as F2 by (intros b Ib; apply filter_ext_in; intros a Ia; apply E; assumption).
+  f_equal; [|f_equal].
+  - apply flat_map_ext_in. intros a Ia. rewrite (F1 a Ia). reflexivity.
+  - destruct how; try reflexivity; apply flat_map_ext_in; intros a Ia; rewrite (F1 a Ia); reflexivity.
+  - destruct how; try reflexivity; apply flat_map_ext_in; intros b Ib; rewrite (F2 b Ib); reflexivity.
+Qed.
+
+(* the cell of the reference join for a pair and a column *)
+Definition sem_cell (ca cb : list string) (p : pair (list val) (list val)) (c : string) : val :=
+  let va := match fst p with Some r => if mem c ca then get ca r c else VNull | None => VNull end in
+  let vb := match snd p with Some r => if mem c cb then get cb r c else VNull | None => VNull end in
+  if is_null va then vb else va.
+
+Lemma key_pair_null cl cr on_a on_b ra rb c :
+  In (c, c) (combine on_a on_b) -> keys_eqv (key_of cl on_a ra) (key_of cr on_b rb) = true ->
+  is_null (get cl ra c) = true -> get cr rb c = VNull.
+Proof.
+  intros I E N. destruct (In_nth_error _ _ I) as [i Hi].
+  assert (nth_error on_a i = Some c /\ nth_error on_b i = Some c) as [Ea Eb].
+  { clear -Hi. revert on_b i Hi. induction on_a as [|a on_a IH]; intros [|b on_b] [|i] H; simpl in *; try discriminate.
+    - inversion H; subst. split; reflexivity.
+    - apply IH, H. }
+  pose proof (keys_eqv_null_at _ _ i E) as K. unfold key_of in K.
+  rewrite (nth_indep _ VNull (get cl ra "")) in K by (rewrite map_length; apply nth_error_Some; congruence).
+  rewrite (map_nth (get cl ra)) in K. rewrite (nth_error_nth _ _ _ Ea) in K. specialize (K N).
+  rewrite (nth_indep _ VNull (get cr rb "")) in K by (rewrite map_length; apply nth_error_Some; congruence).
+  rewrite (map_nth (get cr rb)) in K. rewrite (nth_error_nth _ _ _ Eb) in K. exact K.
+Qed.
